@@ -317,3 +317,20 @@ def clock(clock_modules):
         yield
     finally:
         inst.undo()
+
+
+@contextlib.contextmanager
+def env_stubs():
+    """environment stubs active in BOTH modes: time.sleep is a no-op inside flumine's retry back-off / paper-trade delays"""
+    import time as _time
+    import types
+    inst = Installed()
+    stub = types.SimpleNamespace(sleep=lambda s: None, time=_time.time, perf_counter=_time.perf_counter)
+    try:
+        for name in ("flumine.order.orderpackage", "flumine.execution.simulatedexecution", "flumine.execution.betdaqexecution"):
+            mod = sys.modules.get(name)
+            if mod is not None and hasattr(mod, "time"):
+                inst.set(mod, "time", stub)
+        yield
+    finally:
+        inst.undo()
